@@ -169,9 +169,15 @@ func CheckGate(gc *GateCase, r *Response, gateErrs []string, query string, vars 
 		out = append(out, Mismatch{Key: key, Where: gc.Op.Class(), Detail: fmt.Sprintf(format, a...)})
 	}
 	if len(gateErrs) > 0 {
-		// the operation did not pass parsing / validation: nothing executed. With introspection
-		// disabled that reveals nothing; but the corpus is built from valid operations, so say so.
-		add("gate-operation-rejected", "operation rejected before execution: %v", gateErrs)
+		// The operation did not pass parsing / validation: nothing executed, nothing is revealed.
+		// The corpus consists of valid operations (none is rejected on the pristine tree); a server
+		// that refuses them while introspection is disabled still satisfies the property, one that
+		// refuses them while it is enabled does not answer introspection.
+		if gc.Op.Ext == "t" {
+			add("gate-closed-while-enabled:rejected", "introspection is enabled but the operation was rejected before execution: %v", gateErrs)
+		} else if r.Data != nil {
+			add("gate-data-shape", "operation rejected (%v) but data is %s", gateErrs, trunc(r.Raw, 300))
+		}
 		return out
 	}
 	errAt := map[string]int{}
